@@ -55,7 +55,7 @@ TQuiescent == Step("quiescent") /\ UNCHANGED <<avars, scen, side, fwd, caps, has
 TEnded == Step("proxy_ended") /\ UNCHANGED <<avars, scen, side, fwd, caps, hascap>> /\ ended' = TRUE /\
    IF dead THEN NoFlag ELSE Flag("C15/proxy-stopped")
 TPanic == Step("panic") /\ UNCHANGED <<avars, scen, side, fwd, caps, hascap, ended>> /\ Flag("C03/panic")
-Ignored == {"peer_part", "peer_bytes", "attach_call", "attach_pending", "released", "proxy_pending", "end", "pipe", "peer_cut", "harness_error"}
+Ignored == {"observed", "peer_part", "peer_bytes", "attach_call", "attach_pending", "released", "proxy_pending", "end", "pipe", "peer_cut", "harness_error"}
 TIgnore == l <= NRec /\ E.ev \in Ignored /\ l' = l + 1 /\ UNCHANGED <<avars, scen, side, fwd, caps, hascap, ended>> /\ NoFlag
 TNext == TReset \/ TSide \/ TAttachRet \/ TWrote \/ TWire \/ TQuiescent \/ TEnded \/ TPanic \/ TIgnore
 TSpec == TInit /\ [][TNext]_tvars
